@@ -106,14 +106,15 @@ type Client struct {
 	Behaviour string
 	Offending bool // must never reach a handler under the server's TLS configuration
 
-	hsDone   bool
-	hsErr    string
-	srvTLS   string // result of Request.StartTLS as seen by the handler ("" ok)
-	srvTLSOK bool
-	srvAbort bool // the server closed the socket abortively (RST) with data still on its way
-	plainIn  int  // bytes received before the TLS handshake (StartTLS flavour)
-	plainOut int
-	eof      string
+	hsDone    bool
+	hsErr     string
+	srvTLS    string // result of Request.StartTLS as seen by the handler ("" ok)
+	srvTLSOK  bool
+	wasPaused bool // stopped reading at some point of the run
+	srvAbort  bool // the server closed the socket abortively (RST) with data still on its way
+	plainIn   int  // bytes received before the TLS handshake (StartTLS flavour)
+	plainOut  int
+	eof       string
 
 	pc         int
 	ep         *simrt.Conn
@@ -767,7 +768,7 @@ func (c *Core) noteStep(s *Sim, cl *Client, perform bool) {
 	case stPause:
 		s.Logf("%s stops reading", cl.name())
 		s.Fault("F5-client-stops-reading")
-		cl.paused = true
+		cl.paused, cl.wasPaused = true, true
 	case stResume:
 		cl.paused = false
 		c.OnDelivered(s, cl.ep)
@@ -828,7 +829,7 @@ func (c *Core) faultActions(s *Sim, acts []Action) []Action {
 					s.Logf("FAULT %s stops reading", cl.name())
 					s.Fault("F5-client-stops-reading")
 					c.faultsLeft--
-					cl.paused = true
+					cl.paused, cl.wasPaused = true, true
 				}})
 			}
 		}
